@@ -220,7 +220,7 @@ func H_C06_Ante() {
 	rt.Assert("C05.unlocked-recorded-as-spent", rt.IntEq(ns, rt.IntAdd(spent, unlocked)))
 	rt.Assert("C05.unlocked-becomes-liquid", rt.IntEq(ae.Bank.Bal(Addr(0), "nund"), rt.IntAdd(liquid, unlocked)))
 	rt.Assert("C05.other-account-untouched", rt.And(rt.IntEq(k.GetLockedUndAmountForAccount(ctx, Addr(1)).Amount, books.Locked[1]), rt.IntEq(k.GetSpentEFUNDAmountForAccount(ctx, Addr(1)).Amount, books.Spent[1])))
-	rt.Assert("C04.books-balance", booksBalanced(ae.E, books, rt.IntSub(locked, unlocked), books.Locked[1], rt.IntAdd(spent, unlocked), books.Spent[1]))
+	rt.Assert("C04+C17.books-balance", booksBalanced(ae.E, books, rt.IntSub(locked, unlocked), books.Locked[1], rt.IntAdd(spent, unlocked), books.Spent[1]))
 	rt.Assert("C02.ante-mints-nothing", rt.And(ae.Bank.Minted.IsZero(), ae.Bank.Burned.IsZero()))
 	_ = enttypes.ModuleName
 }
@@ -257,6 +257,6 @@ func H_C06_Recheck() {
 		return
 	}
 	rt.Reach("admitted")
-	rt.Assert("C06.recheck-admits-only-with-exact-fee", rt.IntEq(f, spec.Expected))
+	rt.Assert("C06+C16.recheck-admits-only-with-exact-fee", rt.IntEq(f, spec.Expected))
 	rt.Assert("C06.recheck-admits-only-if-payer-can-cover", rt.IntLe(f, rt.IntAdd(liquid, books.Locked[0])))
 }
